@@ -16,7 +16,7 @@ REPO = os.environ.get("VERIF_REPO", "/repo")
 COQ = os.path.join(VERIF, "coq")
 BUILD = os.path.join(VERIF, "build")
 DRIVER = os.path.join(BUILD, "driver")
-EVIDENCE = os.path.join(VERIF, "evidence")
+EVIDENCE = os.environ.get("VERIF_EVIDENCE") or (os.path.join(VERIF, "evidence") if REPO == "/repo" else "/tmp/verif-evidence-scratch")
 REPLAYS = os.path.join(VERIF, "replays")
 
 ALLOWED_AXIOMS = {
